@@ -163,6 +163,26 @@ func roundDistinct(G, round int) {
 			}
 		})
 	}
+	// readers poll the files while they are being created: a file that can be read at all holds
+	// the whole value (a new file is never visible empty)
+	for g := 0; g < G; g++ {
+		g := g
+		ops = append(ops, func() {
+			for i := 0; i < 5; i++ {
+				p := fmt.Sprintf("shared/f%d_%d", g, i)
+				for try := 0; try < 2000; try++ {
+					b, err := fs.ReadFile(p)
+					if err != nil {
+						continue
+					}
+					if string(b) != string(value(g)) {
+						add("readers-see-complete-values", id, fmt.Sprintf("%s read while it was created: %d bytes, expected %d", p, len(b), len(value(g))))
+					}
+					break
+				}
+			}
+		})
+	}
 	if !parallel(id, ops) {
 		return
 	}
